@@ -87,6 +87,7 @@ def requiredCoverage : List (String × String × String × List String) := [
   -- get-or-create of the per-key state/queue must be ONE critical section (look up, create, store):
   ("limit.RateLimitState", "groupsStateByLimiter", "mutex", ["getLimiterState"]),
   ("concurrentmap.ConcurrentMap", "simpleMap", "mutex", ["LookupOrAssign"]),
+  ("quotaresource.fixedWindow", "quotaGroups", "getQuotaLock", ["getQuota"]),
   ("remedies.StrategyBasedQueuePlugin", "queues", "queuesMutex", ["OnRequest"]),
   ("limit.singleRateLimitState", "counter", "mutex", ["TryToIncrement"]),
   ("limit.singleRateLimitState", "windowEndTime", "mutex", []),
